@@ -34,7 +34,7 @@ META = dict(
 
 def bounds(tier):
     if tier == "thorough":
-        return dict(kb=4, kd=6, ks=[1, 2, 3], it1=10, it2=15)
+        return dict(kb=4, kd=6, ks=[1, 2], it1=10, it2=15)
     return dict(kb=3, kd=3, ks=[1, 2], it1=10, it2=15)
 
 
@@ -43,8 +43,13 @@ def jobs(tier):
     js = [dict(kind="bisect", k=b["kb"])]
     js.append(dict(kind="descent", k=b["kd"]))
     for ks in b["ks"]:
-        js.append(dict(kind="G", ks=ks))
+        if ks >= 3:
+            for i in range(16):
+                js.append(dict(kind="G", ks=ks, shard=[i, 16, 14]))
+        else:
+            js.append(dict(kind="G", ks=ks))
     js.append(dict(kind="G-default"))
+    js.append(dict(kind="G-default", after="relaxed"))   # the default schedule is still the default after a relaxed-mode run
     for mode in (0, 1):
         js.append(dict(kind="strategy", mode=mode))
     for i in range(8):
@@ -134,6 +139,11 @@ def run_job(job, check_id=None, only=None):
             st.calls.clear()
             text, bg = eng.rgb_var("t"), eng.rgb_var("b")
             large = eng.bool_var("large")
+            if job.get("after") == "relaxed":
+                # one relaxed-mode run first (same process, searches finding nothing): schedules must be rebuilt per call
+                t2, b2 = eng.rgb_var("u"), eng.rgb_var("v")
+                opt._strategy_relaxed(t2, b2, False, 7.0, 4.5)
+                st.calls.clear()
             res = real_G(text, bg, large)
             eng.oblige("nothing found -> input returned", sbool(res is text))
             tols = [c[3] for c in st.calls]
@@ -224,6 +234,38 @@ def replay_routine(inp):
     return bad, "%s(%r,%r,tol=%r,target=%r) -> %r, reference dE=%r" % (job["kind"], t, b, tol, target, res, de)
 
 
+def replay_default_schedule(inp):
+    """mode 0 stays within dE 5.0 -- also right after a relaxed-mode run in the same process (schedules are per call)"""
+    from cm_colors.core.colors import ColorPair
+    from ..refde import delta_e_2000_rgb
+    job = inp["_job"]
+    t, b = _rgb(inp, "t"), _rgb(inp, "b")
+    note = ""
+    if job.get("after") == "relaxed":
+        u = _rgb(inp, "u") if "ur" in inp else (128, 128, 128)
+        v = _rgb(inp, "v") if "vr" in inp else (120, 120, 120)
+        for very in (False, True):
+            ColorPair(u, v).make_readable(mode=2, very_readable=very)
+        note = "after make_readable(mode=2) on %r/%r: " % (u, v)
+    worst = None
+    for large in (False, True):
+        for very in (False, True):
+            res, ok = ColorPair(t, b, large).make_readable(mode=0, very_readable=very)
+            de = delta_e_2000_rgb(t, tuple(res))
+            if de > 5.0 + 0.05:
+                worst = (large, very, res, round(de, 3))
+    return worst is not None, note + "mode 0 on %r/%r: %r" % (t, b, worst)
+
+
+def _ladder_default(job):
+    from ..ladder import pairs
+    ps = list(pairs())
+    hard = [((128, 128, 128), (120, 120, 120)), ((100, 100, 100), (110, 110, 110)), ((200, 0, 0), (210, 0, 0))]
+    for (u, v) in hard:
+        for t, b in ps[::4]:
+            yield dict(tr=t[0], tg=t[1], tb=t[2], br=b[0], bg=b[1], bb=b[2], ur=u[0], ug=u[1], ub=u[2], vr=v[0], vg=v[1], vb=v[2])
+
+
 def replay_strategy(inp):
     from cm_colors.core import optimisation as opt
     from cm_colors.core.colors import ColorPair
@@ -259,9 +301,9 @@ def _ladder_strategy(job):
 
 
 LADDER = {"bisect": _ladder_routine, "descent": _ladder_routine, "G": _ladder_routine, "strategy": _ladder_strategy,
-          "G-default": _ladder_strategy}
+          "G-default": _ladder_default}
 
-REPLAYS = {"bisect": replay_routine, "descent": replay_routine, "G": replay_routine, "G-default": replay_strategy,
+REPLAYS = {"bisect": replay_routine, "descent": replay_routine, "G": replay_routine, "G-default": replay_default_schedule,
            "strategy": replay_strategy}
 
 
